@@ -5,7 +5,8 @@ Core Lean only.
 
 What is GENERATED from the current source (Generated/Optim.lean) and only *used* here:
 `lowerViolated`, `upperViolated`, `oobReturnLower/Upper`, `nanResult`, `objReturn`, `outOfBoundsVal` (the arithmetic and the
-tests of `_object_func`), `downKeeps`, `upTakesFree` (the `is None` tests of the two projections), the table `wrappers`
+tests of `_object_func`), `downKeeps`, `upTakesFree` (the `is None` tests of the two projections), `upOutDtype` (element type of the
+array `_project_params_up` allocates, from its allocation statement), the table `wrappers`
 (per wrapper: objective, start vector, bounds, result assembly as `VE` terms) and `perturbSteps` (the clamp formulas).
 
 What is hand-written here: the two projection loops, the control flow of `_object_func` (bound check BEFORE the model is
